@@ -152,6 +152,7 @@ LONG_FIELD_NAMES = [pre + mid + tail
                     for tail in ["primary", "secondary", "backup", "north", "south"]
                     if 20 <= len(pre + mid + tail) <= 40]
 ENUM_NAMES = ["Color", "Mode", "Grade"]
+TM_NAMES = ["Money", "Quantity", "Span"]   # classes persisted through a TypeDecorator (`type_mappings` keys)
 
 
 def budget(tier: str) -> int:
@@ -179,11 +180,11 @@ def _parse(line: str):
 def parse_case(line: str) -> dict:
     s = _parse(line)
     assert s[0] == "m"
-    d = {"fut": True, "ord": [], "ord2": [], "enums": [], "classes": []}
+    d = {"fut": True, "ord": [], "ord2": [], "enums": [], "tm": [], "classes": []}
     for it in s[1:]:
         if it[0] == "fut":
             d["fut"] = it[1] == "T"
-        elif it[0] in ("ord", "ord2", "enums"):
+        elif it[0] in ("ord", "ord2", "enums", "tm"):
             d[it[0]] = list(it[1:])
         elif it[0] == "split":
             d["split_real"] = it[1] == "R"
@@ -211,6 +212,9 @@ def show_case(d: dict) -> str:
     for c in d["classes"]:
         fs = "".join(" (%s %s%s)" % (n, k, "" if a is None else " " + a) for n, k, a in c["fields"])
         parts.append("(c %s %s%s)" % (c["name"], c["base"] or "-", fs))
+    if d.get("tm"):
+        # keys of ORMatic's `type_mappings` argument (classes persisted through a TypeDecorator), used by a field or not
+        parts.append("(tm %s)" % " ".join(d["tm"]))
     if any(c.get("part", 0) for c in d["classes"]):
         # source layout only (the Lean driver ignores it): module index of every class, `R` = references to classes of
         # lower-numbered modules are imported for real, `T` = every cross-module reference is TYPE_CHECKING-only
@@ -239,6 +243,10 @@ def _annotation(kind: str, arg, fut: bool, declared: set) -> str:
         return "Optional[datetime]"
     if kind == "j":
         return "List[%s]" % arg
+    if kind == "cu":
+        return arg
+    if kind == "ocu":
+        return "Optional[%s]" % arg
     if kind == "r":
         return cls(arg)
     if kind == "or":
@@ -253,7 +261,10 @@ def render_module(d: dict) -> str:
     if d["fut"]:
         out.append("from __future__ import annotations")
     out += ["from dataclasses import dataclass", "from datetime import datetime", "from enum import Enum",
-            "from typing_extensions import List, Optional", "", ""]
+            "from typing_extensions import List, Optional"]
+    if d.get("tm"):
+        out.append("from %s import %s" % (TM_CLASSES, ", ".join(d["tm"])))
+    out += ["", ""]
     for e in d["enums"]:
         out += ["class %s(Enum):" % e, "    FIRST = 1", "    SECOND = 2", "", ""]
     for u in external_targets(d):
@@ -271,6 +282,25 @@ def render_module(d: dict) -> str:
         declared.add(c["name"])
         out += ["", ""]
     return "\n".join(out)
+
+
+TM_CLASSES = "c06_value_classes"   # module of the classes that are keys of `type_mappings`
+TM_TYPES = "c06_value_columns"     # module of the TypeDecorators they are mapped to
+
+
+def render_type_mapping_modules(d: dict) -> dict:
+    """two extra modules: plain value classes, and one SQLAlchemy TypeDecorator per class (the `type_mappings` values)"""
+    a = ["", ""]
+    for n in d.get("tm", []):
+        a += ["class %s:" % n, "    def __init__(self, text=''):", "        self.text = text", "", ""]
+    b = ["from sqlalchemy import String, TypeDecorator", "import %s" % TM_CLASSES, "", ""]
+    for n in d.get("tm", []):
+        b += ["class %sColumn(TypeDecorator):" % n, "    impl = String(64)", "    cache_ok = True", "",
+              "    def process_bind_param(self, value, dialect):",
+              "        return None if value is None else value.text", "",
+              "    def process_result_value(self, value, dialect):",
+              "        return None if value is None else %s.%s(value)" % (TM_CLASSES, n), "", ""]
+    return {TM_CLASSES + ".py": "\n".join(a), TM_TYPES + ".py": "\n".join(b)}
 
 
 def external_targets(d: dict) -> list:
@@ -317,6 +347,8 @@ def render_sources(d: dict, mod: str):
         lazy -= real
         out = ["from __future__ import annotations", "from dataclasses import dataclass", "from datetime import datetime",
                "from typing import TYPE_CHECKING", "from typing_extensions import List, Optional"]
+        if d.get("tm"):
+            out.append("from %s import %s" % (TM_CLASSES, ", ".join(d["tm"])))
         used_enums = sorted({a for c in mine for _, k, a in c["fields"] if k in ("e", "oe")})
         if used_enums:
             out.append("from %s_en import %s" % (mod, ", ".join(used_enums)))
@@ -381,9 +413,9 @@ def ground_truth(d: dict) -> str:
         for n, k, a in c["fields"]:
             if n.startswith("_") or n in anc_names:
                 continue
-            if k in ("s", "e", "d", "j"):
+            if k in ("s", "e", "d", "j", "cu"):
                 cols.append(n)
-            elif k in ("o", "oe", "od"):
+            elif k in ("o", "oe", "od", "ocu"):
                 cols.append(n + "?")
             elif k in ("r", "or") and a in by:
                 cols.append(n + "_id" + ("?" if k == "or" else ""))
@@ -421,12 +453,16 @@ def _exc_kind(e: BaseException) -> str:
     return {"DuplicateColumnError": "dupcol", "MappedAnnotationError": "unresolved"}.get(n, n)
 
 
-def _generate(where: dict, order, out_path: str) -> str:
+def _generate(where: dict, order, out_path: str, tm=()) -> str:
     import importlib
     from krrood.class_diagrams.class_diagram import ClassDiagram
     from krrood.ormatic.ormatic import ORMatic
 
-    o = ORMatic(ClassDiagram([getattr(importlib.import_module(where[c]), c) for c in order]))
+    kwargs = {}
+    if tm:
+        classes, columns = importlib.import_module(TM_CLASSES), importlib.import_module(TM_TYPES)
+        kwargs["type_mappings"] = {getattr(classes, n): getattr(columns, n + "Column") for n in tm}
+    o = ORMatic(ClassDiagram([getattr(importlib.import_module(where[c]), c) for c in order]), **kwargs)
     o.make_all_tables()
     with open(out_path, "w") as f:
         o.to_sqlalchemy_file(f)
@@ -473,7 +509,7 @@ def _inspect(g, d: dict) -> dict:
         for col in tbl.columns:
             mark = ""
             k = allf.get(col.name, (None, None))[0]
-            if k in ("o", "oe", "od"):
+            if k in ("o", "oe", "od", "ocu"):
                 mark = "?" if col.nullable else "!"
             elif col.name.endswith("_id") and allf.get(col.name[:-3], (None, None))[0] == "or":
                 mark = "?" if col.nullable else "!"
@@ -525,7 +561,7 @@ def _worker_main(jobfile: str) -> None:
         where = job["where"]
         if job["mode"] == "full":
             try:
-                text = _generate(where, d["ord"], os.path.join(job["dir"], mod + "_orm.py"))
+                text = _generate(where, d["ord"], os.path.join(job["dir"], mod + "_orm.py"), d.get("tm", ()))
             except Exception as e:  # noqa: BLE001
                 res["fail"] = "gen:" + _exc_kind(e)
                 res["detail"] = str(e)[:300]
@@ -543,9 +579,9 @@ def _worker_main(jobfile: str) -> None:
             res.update(_inspect(g, d))
         else:
             try:
-                t1 = _generate(where, d["ord"], os.path.join(job["dir"], mod + "_orm_b.py"))
+                t1 = _generate(where, d["ord"], os.path.join(job["dir"], mod + "_orm_b.py"), d.get("tm", ()))
                 res["sha"] = hashlib.sha1(t1.encode()).hexdigest()
-                t2 = _generate(where, d["ord2"], os.path.join(job["dir"], mod + "_orm_c.py"))
+                t2 = _generate(where, d["ord2"], os.path.join(job["dir"], mod + "_orm_c.py"), d.get("tm", ()))
                 res["blocks"] = _blocks(t2)
             except Exception as e:  # noqa: BLE001
                 res["fail"] = "gen:" + _exc_kind(e)
@@ -585,6 +621,8 @@ def _observe(d: dict, line: str) -> str:
     try:
         mod = "c06m_" + hashlib.sha1(line.encode()).hexdigest()[:10]
         files, where = render_sources(d, mod)
+        if d.get("tm"):
+            files.update(render_type_mapping_modules(d))
         for fn, text in files.items():
             Path(tmp, fn).write_text(text)
         job = {"dir": tmp, "src": str(REPO / "src"), "module": mod, "where": where, "case": d, "mode": "full"}
@@ -681,6 +719,11 @@ def _random_model(rng, shape: str) -> dict:
     long_names = shape == "long-names" or rng.random() < 0.12
     names = rng.sample(LONG_CLASS_NAMES if long_names else CLASS_NAMES, n)
     enums = rng.sample(ENUM_NAMES, rng.choice([0, 1, 1, 2]))
+    # the `type_mappings` argument: 0-3 keys; fields may use some of them, the others stay unused entries
+    tm = rng.sample(TM_NAMES, rng.choice([1, 2, 3])) if (shape == "type-mappings" or rng.random() < 0.2) else []
+    tm_used = tm[:rng.choice([0, 1, len(tm)])] if tm else []
+    if shape == "type-mappings" and not tm_used and rng.random() < 0.6:
+        tm_used = tm[:1]
     classes = []
     for i, nm in enumerate(names):
         base = None
@@ -724,9 +767,12 @@ def _random_model(rng, shape: str) -> dict:
                 continue
             used.add(fname)
             kind = rng.choices(
-                ["s", "o", "e", "oe", "d", "od", "j", "r", "or", "l"],
-                weights=[22, 12, 6 if enums else 0, 3 if enums else 0, 5, 3, 8, 12, 12, 14])[0]
+                ["s", "o", "e", "oe", "d", "od", "j", "r", "or", "l", "cu", "ocu"],
+                weights=[22, 12, 6 if enums else 0, 3 if enums else 0, 5, 3, 8, 12, 12, 14,
+                         10 if tm_used else 0, 8 if tm_used else 0])[0]
             arg = None
+            if kind in ("cu", "ocu"):
+                arg = rng.choice(tm_used)
             if kind in ("s", "o", "j"):
                 arg = rng.choice(SCALARS)
             elif kind in ("e", "oe"):
@@ -813,11 +859,14 @@ def _random_model(rng, shape: str) -> dict:
     rng.shuffle(order2)
     if order2 == order:
         order2 = list(reversed(order))
-    return {"fut": rng.random() < 0.5, "ord": order, "ord2": order2, "enums": sorted(enums), "classes": decl}
+    if tm_used and not any(f[1] in ("cu", "ocu") for c in classes for f in c["fields"]):
+        rng.choice(classes)["fields"].append(("worth", rng.choice(["cu", "ocu"]), tm_used[0]))
+    return {"fut": rng.random() < 0.5, "ord": order, "ord2": order2, "enums": sorted(enums), "tm": sorted(tm),
+            "classes": decl}
 
 
-SHAPES = ["plain", "hier-refs", "long-names", "deep", "mutual", "multi-coll", "self-ref", "plain", "hier-refs",
-          "no-builtin", "plain", "self-coll", "deep"]
+SHAPES = ["plain", "hier-refs", "long-names", "deep", "type-mappings", "mutual", "multi-coll", "self-ref", "plain",
+          "hier-refs", "no-builtin", "type-mappings", "self-coll", "deep"]
 
 
 def _assign_parts(rng, d: dict) -> None:
@@ -907,6 +956,14 @@ HIER_FAMILY = [
 ]
 
 
+# A fixed family about the `type_mappings` argument: a used key, an Optional use, a key no field uses, only unused keys.
+TM_FAMILY = [
+    "(m (fut T) (ord Item Owner) (ord2 Owner Item) (enums) (c Item - (size s int) (price cu Money) (rebate ocu Money)) "
+    "(c Owner - (title s str) (budget ocu Quantity) (items l Item)) (tm Money Quantity Span))",
+    "(m (fut F) (ord Box) (ord2 Box) (enums) (c Box - (count s int) (label o str)) (tm Money))",
+]
+
+
 def _tags(d: dict, shape: str):
     tags = [shape, "classes=%d" % len(d["classes"]), "fut" if d["fut"] else "nofut"]
     longest = max([len("%sdao_%s_association" % (c["name"], n)) for c in d["classes"] for n, k, _ in c["fields"]
@@ -937,6 +994,11 @@ def _tags(d: dict, shape: str):
     tags = list(dict.fromkeys(tags))
     if external_targets(d):
         tags.append("ref-to-unmapped-class")
+    if d.get("tm"):
+        used = {a for c in d["classes"] for _, k, a in c["fields"] if k in ("cu", "ocu")}
+        tags.append("type-mappings=%d" % len(d["tm"]))
+        if set(d["tm"]) - used:
+            tags.append("type-mappings-unused-entry")
     if is_split(d):
         by = {c["name"]: c["part"] for c in d["classes"]}
         lazy = max((len({a for _, k, a in c["fields"] if k in ("r", "or", "l") and by.get(a, c["part"]) != c["part"]})
@@ -949,6 +1011,7 @@ def generate(rng, tier, n):
     cases = [Case(show_case(parse_case(l)), _tags(parse_case(l), "split-family"), "exhaustive") for l in SPLIT_FAMILY]
     cases += [Case(show_case(parse_case(l)), _tags(parse_case(l), "name-family"), "exhaustive") for l in NAME_FAMILY]
     cases += [Case(show_case(parse_case(l)), _tags(parse_case(l), "hier-family"), "exhaustive") for l in HIER_FAMILY]
+    cases += [Case(show_case(parse_case(l)), _tags(parse_case(l), "tm-family"), "exhaustive") for l in TM_FAMILY]
     for i in range(n):
         shape = SHAPES[i % len(SHAPES)] if i < 2 * len(SHAPES) else rng.choice(SHAPES)
         d = _random_model(rng, shape)
